@@ -112,7 +112,6 @@ func runECIES(c *vf.Check, g *groups.G, part, parts int) {
 			var failing []byte // the first ciphertext that failed: a re-run of the case judges that one again
 			c.Case(id, pk, func(x *vf.Ctx) {
 				msg := plaintext(20, 2)
-				want := -1
 				for i := 0; i < 100; i++ {
 					var ct []byte
 					var err error
@@ -126,18 +125,10 @@ func runECIES(c *vf.Check, g *groups.G, part, parts int) {
 						x.Failf(pk+"/encrypt", "%s: Encrypt refused: %v", id, err)
 						return
 					}
-					if want < 0 {
-						want = len(ct)
-					}
 					got, err := ecies.Decrypt(g.Group, priv, append([]byte{}, ct...), sha256.New)
 					if err != nil || !bytes.Equal(got, msg) {
 						failing = append([]byte{}, ct...)
 						x.Failf(pk+"/roundtrip", "%s: a round trip fails (%d-byte ciphertext %x..): %v", id, len(ct), ct[:8], err)
-						return
-					}
-					if len(ct) != pl+20+16 && g.Name != "" && want != len(ct) {
-						failing = append([]byte{}, ct...)
-						x.Failf(pk+"/ciphertext-length", "%s: a ciphertext has %d bytes, the others %d", id, len(ct), want)
 						return
 					}
 				}
